@@ -340,8 +340,8 @@ func discharge(results []*FnResult, tier Tier) {
 	var wg sync.WaitGroup
 	for _, r := range results {
 		r := r
-		if len(r.Obls) == 0 {
-			continue
+		if len(r.Obls) == 0 || r.query == nil {
+			continue // nothing to solve (synthetic results carry their answers)
 		}
 		wg.Add(1)
 		go func() {
